@@ -25,9 +25,9 @@ RULE = ("case = (scenario variant, injector kind); inside: every abort index; a 
         "monitor_counters: runs per injector, events and deliveries checked")
 ASSUMPTIONS = ["abort = OptimizationAborted(USER_ABORT) raised by user code (observer, handler or evaluator), as BasicOptimizer.set_abort_callback does"]
 REQUIRED = {"quick": {"abort_runs.observer": 400, "abort_runs.handler": 400, "abort_runs.evaluator": 150, "events_checked": 15000, "deliveries_checked": 60000,
-                      "streams_checked": 2000, "latch_checked": 900, "later_steps_refused": 300, "nested_abort_runs": 200, "abort_runs_with_nested_plans_on_their_own_context": 200, "nested_plan_served_another_outer_plan_before": 100, "three_level_abort_runs": 600, "plan_functions_refused_after_abort": 900, "further_step_tried_during_finish_event": 1200, "basic_optimizer_abort_runs": 24, "__nontrivial__": 900},
+                      "streams_checked": 2000, "latch_checked": 900, "later_steps_refused": 300, "nested_abort_runs": 200, "abort_runs_with_nested_plans_on_their_own_context": 200, "abort_runs_with_a_handler_added_after_an_earlier_nested_run": 60, "nested_plan_served_another_outer_plan_before": 100, "three_level_abort_runs": 600, "plan_functions_refused_after_abort": 900, "further_step_tried_during_finish_event": 1200, "basic_optimizer_abort_runs": 24, "__nontrivial__": 900},
             "thorough": {"abort_runs.observer": 5000, "abort_runs.handler": 5000, "abort_runs.evaluator": 2000, "events_checked": 200000, "deliveries_checked": 1000000,
-                         "streams_checked": 25000, "latch_checked": 12000, "later_steps_refused": 6000, "nested_abort_runs": 4000, "abort_runs_with_nested_plans_on_their_own_context": 3000, "nested_plan_served_another_outer_plan_before": 1500, "three_level_abort_runs": 7000, "plan_functions_refused_after_abort": 10000, "further_step_tried_during_finish_event": 14000, "basic_optimizer_abort_runs": 200, "__nontrivial__": 12000}}
+                         "streams_checked": 25000, "latch_checked": 12000, "later_steps_refused": 6000, "nested_abort_runs": 4000, "abort_runs_with_nested_plans_on_their_own_context": 3000, "abort_runs_with_a_handler_added_after_an_earlier_nested_run": 800, "nested_plan_served_another_outer_plan_before": 1500, "three_level_abort_runs": 7000, "plan_functions_refused_after_abort": 10000, "further_step_tried_during_finish_event": 14000, "basic_optimizer_abort_runs": 200, "__nontrivial__": 12000}}
 N = {"quick": 48, "thorough": 600}
 SCENARIOS = ["optimizer", "evaluator", "sequential", "nested", "nested3"]
 
@@ -254,6 +254,19 @@ def build(scenario, rng, world, raise_at):
                 ev.raise_at, world.muted = saved, False
                 del ev.calls[:]
             world.decoy_used = True
+        if rng.random() < 0.5:
+            # the outer plan has already run the nested plan once (nobody listening), and gets another handler afterwards: from
+            # then on that handler is one of the handlers of an ancestor of the nested plan
+            sw = main.add_step("optimizer")
+            saved, ev.raise_at, world.muted = ev.raise_at, {}, True
+            try:
+                main.run_step(sw, config=ens.make_config_dict(dict(ospec, nan=[])), nested_optimization=inner)
+            finally:
+                ev.raise_at, world.muted = saved, False
+                del ev.calls[:]
+            main.add_handler("verifrec/recorder", tag="h:main:late", first=False)
+            plans["main"]["handlers"].append("h:main:late")
+            world.late_handler = True
         so = main.add_step("optimizer")
         step_plan[so] = "main"
         s2 = main.add_step("evaluator")
@@ -510,6 +523,8 @@ def run_case(case, obs):
                 obs.count("nested_plan_served_another_outer_plan_before")
         if scenario == "nested3":
             obs.count("three_level_abort_runs")
+        if getattr(w, "late_handler", False):
+            obs.count("abort_runs_with_a_handler_added_after_an_earlier_nested_run")
         if w.nested_own_context:
             obs.count("abort_runs_with_nested_plans_on_their_own_context")
             obs.count("observer_calls_on_the_context_of_a_nested_plan", w.stray)
